@@ -324,8 +324,12 @@ def show(e, depth=0):
     if t == "zst":
         return "()"
     if t == "arg":
+        if len(e) < 3:
+            return str(e[1])
         return e[2] or "arg%d" % e[1]
     if t == "var":
+        if len(e) < 3:
+            return str(e[1])
         return "%s" % (e[2] or "_%d" % e[1])
     if t == "upvar":
         return "^" + e[1]
@@ -644,3 +648,49 @@ def to_clamp(e, is_input):
                 return inner.max_c(lo).min_c(hi)
             return None
     return None
+
+
+# --------------------------------------------------------------------------------------
+# stores
+
+
+def root_of(e):
+    chain = []
+    while e[0] in ("field", "idx", "variant", "subslice"):
+        if e[0] == "field":
+            chain.append(e[2])
+        elif e[0] == "idx":
+            chain.append("[]")
+        elif e[0] == "variant":
+            chain.append("as " + e[2])
+        e = e[1]
+    return e, list(reversed(chain))
+
+
+def stores(body, eb=None):
+    """All assignments to a projected place: (bb, idx, stmt, target expr, root, field chain, value expr).
+    Stores through `index_mut`/`deref_mut` results are resolved to the indexed object."""
+    eb = eb or ExprBuilder(body)
+    out = []
+    for bb, i, st in body.iter_stmts():
+        if st["k"] != "assign" or not st["place"]["proj"]:
+            continue
+        tgt = eb.place(st["place"])
+        root, chain = root_of(tgt)
+        out.append((bb, i, st, tgt, root, chain, eb.rvalue(st["rv"])))
+    return out
+
+
+def mut_arg_calls(body, eb=None):
+    """calls that receive a `&mut` whose referent is rooted at an argument / local:
+    (bb, term, callee name, arg position, referent expr)"""
+    from .mir import callee_name as _cn
+    eb = eb or ExprBuilder(body)
+    out = []
+    for bb, t in body.calls():
+        c = t["callee"]
+        name = _cn(c) if c["k"] == "fndef" else "<indirect>"
+        for k, (a, ti) in enumerate(zip(t["args"], t.get("arg_tys") or [])):
+            if ti and ti.get("k") == "ref" and ti.get("mut"):
+                out.append((bb, t, name, k, eb.op(a)))
+    return out
